@@ -197,7 +197,7 @@ def run_harness(prog, h, max_witnesses=60, jobs=None, keep_raw=False):
         for k, v in p.models_used.items():
             res.models_used[k] = res.models_used.get(k, 0) + v
     res.unsupported = res.unsupported[:8]
-    res.witnesses = res.witnesses[:max_witnesses * 2]
+    res.witnesses = res.witnesses[:max_witnesses * 8]
     res.wall_s = time.time() - t0
     return res
 
@@ -341,9 +341,9 @@ def run_concrete(prog, fname, args, models_cls=Models):
     return r.kind, r.info
 
 
-def process(rep, prog, nat, h, tier, validate_inputs=(), to_native_args=None, compare=None):
+def process(rep, prog, nat, h, tier, validate_inputs=(), to_native_args=None, compare=None, max_witnesses=60):
     """run one E2 harness, validate the encoding on concrete inputs, replay witnesses, fill the report"""
-    res = run_harness(prog, h)
+    res = run_harness(prog, h, max_witnesses=max_witnesses)
     # translator validation: interpreter (concrete mode) == native build
     mism = 0
     checked = 0
